@@ -115,7 +115,7 @@ CLAIMED = {
             'the wire must carry exactly next..next+n-1 in increasing order, every ClOrdID once, every stored copy must equal the wire bytes, every send must be accepted; each workload runs '
             'in the ASan/UBSan build and about half of them again under ThreadSanitizer (guarded happens-before annotations on the FastFlow queue wrapper, suppressions limited to ff:: frames).',
             'Thread schedules are sampled by the OS scheduler, not enumerated; ThreadSanitizer covers the interleavings that ran in the happens-before sense only.', '4/C25 and 10.7'),
-    'C28': ('E3', 'exploration', 'generated concurrent workloads (Hypothesis) on real producer threads against the real FileLogger, exactly-once / order / sequence oracle on the file',
+    'C28': ('E3', 'exploration', 'generated concurrent workloads (Hypothesis) on real producer threads against the real FileLogger, with injected stalls inside the queue push and short-lived loggers; exactly-once / order / sequence oracle on the file',
             '1-8 producer threads submit generated scripts of lines at generated levels through Logger::send; stop() is called behind the last submit or in mid-run; the file (read after stop() '
             'returned) must hold every required line exactly once, no line at a disabled level, each producer in submission order, sequence numbers 1..n, and send() must have returned true '
             'for every accepted line. ASan/UBSan build.',
